@@ -375,6 +375,155 @@ def drop_cfg(code):
 TOKEN = re.compile(r"[A-Za-z_][A-Za-z0-9_]*|\d+|\S")
 
 
+def _block_stmt_spans(m, ob):
+    """(start, end) of the statements directly inside the block opened at m[ob] == '{' (end exclusive; trailing expression too)"""
+    cb = match_close(m, ob)
+    spans = []
+    k = ob + 1
+    n = cb
+    while k < n:
+        while k < n and m[k].isspace():
+            k += 1
+        if k >= n:
+            break
+        st = k
+        blocklike = re.match(r'(if|match|for|while|loop|unsafe)\b', m[k:k + 7]) is not None
+        while k < n:
+            c = m[k]
+            if c in '([':
+                k = match_close(m, k) + 1
+                continue
+            if c == '{':
+                k = match_close(m, k) + 1
+                if blocklike:
+                    t = k
+                    while t < n and m[t].isspace():
+                        t += 1
+                    if m.startswith('else', t) and not (m[t + 4].isalnum() or m[t + 4] == '_'):
+                        k = t + 4
+                        continue
+                    if t < n and m[t] == ';':
+                        k = t + 1
+                    elif t < n and m[t] in '.?':
+                        blocklike = False      # `match x {..}.foo()` / `if .. {..}?`: an expression statement after all
+                        continue
+                    break
+                continue
+            if c == ';':
+                k += 1
+                break
+            k += 1
+        spans.append((st, k))
+    return spans
+
+
+def _if_branches(m, a, b):
+    """blocks (open, close) of the if / else-if / else chain that is the statement m[a:b]; second value: True when it is a plain
+    `if {..}` or `if {..} else {..}` (no else-if)"""
+    branches = []
+    k = a
+    plain = True
+    while True:
+        while k < b and m[k] != '{':
+            if m[k] in '([':
+                k = match_close(m, k) + 1
+                continue
+            k += 1
+        if k >= b:
+            break
+        bo_ = k
+        bc_ = match_close(m, bo_)
+        branches.append((bo_, bc_))
+        t = bc_ + 1
+        while t < b and m[t].isspace():
+            t += 1
+        if m.startswith('else', t):
+            k = t + 4
+            t2 = k
+            while t2 < b and m[t2].isspace():
+                t2 += 1
+            if m.startswith('if', t2):
+                plain = False
+            continue
+        break
+    return branches, plain and len(branches) <= 2
+
+
+def _rewrite_in_tail_block(m, code, ob):
+    """one E30 rewrite in the block opened at `ob`, which is in tail position of a for-loop body (nothing of the body runs after
+    it); returns the new code or None"""
+    cb = match_close(m, ob)
+    stmts = _block_stmt_spans(m, ob)
+    for (a, b) in stmts:
+        if not re.match(r'if\b', m[a:a + 3]):
+            continue
+        branches, plain = _if_branches(m, a, b)
+        if not branches or not plain:
+            continue
+        for bi, (bo_, bc_) in enumerate(branches):
+            inner = _block_stmt_spans(m, bo_)
+            if not inner:
+                continue
+            la, lb = inner[-1]
+            if re.match(r'continue\s*;?\s*$', m[la:lb]) is None:
+                continue
+            rest = code[b:cb]
+            if len(branches) == 1:
+                new_if = code[a:la] + code[lb:bc_] + '} else {' + rest + '}\n'
+            elif bi == 0:
+                new_if = code[a:la] + code[lb:branches[1][1]] + rest + '}\n'
+            else:
+                new_if = code[a:branches[0][1]] + rest + code[branches[0][1]:la] + code[lb:bc_ + 1] + '\n'
+            return code[:a] + new_if + code[cb:]
+    # no guard at this level: the branches of a LAST if-statement are in tail position too
+    if stmts:
+        a, b = stmts[-1]
+        if re.match(r'if\b', m[a:a + 3]):
+            branches, _plain = _if_branches(m, a, b)
+            for (bo_, bc_) in branches:
+                r = _rewrite_in_tail_block(m, code, bo_)
+                if r is not None:
+                    return r
+    return None
+
+
+def rewrite_guard_continues(code):
+    """E30: in a `for` loop, a guard `if c { A; continue; } R` - the `continue` ends an if / else branch that is a statement of the
+    loop body, or of a block in tail position of the loop body - becomes `if c { A } else { R }`.  Verus rejects `continue` in
+    `for` loops; skipping the rest of the body and putting the rest of the body in the other branch are the same thing.
+    Returns (code, number of rewrites); a `continue` anywhere else (inside a nested loop's own body it belongs to that loop; in a
+    match arm; under an else-if chain) is left alone - the front end then refuses the function (exit 2)."""
+    count = 0
+    for _round in range(60):
+        m = mask(code)
+        new = None
+        for fm in re.finditer(r'\bfor\b', m):
+            k = fm.end()
+            n = len(m)
+            ob = -1
+            while k < n:
+                c = m[k]
+                if c in '([':
+                    k = match_close(m, k) + 1
+                    continue
+                if c == '{':
+                    ob = k
+                    break
+                if c == ';':
+                    break
+                k += 1
+            if ob < 0:
+                continue
+            new = _rewrite_in_tail_block(m, code, ob)
+            if new is not None:
+                break
+        if new is None:
+            break
+        code = new
+        count += 1
+    return code, count
+
+
 def tokens_of(code):
     m = mask(code)
     # keep string literal contents out (masked), comments out
@@ -520,6 +669,12 @@ def weave_extract(ub, ex, rf, repo_root):
         if c2 != code:
             rec['transformations'].append({'rule': 'E10', 'what': "&str -> &'static str"})
             code = c2
+
+    # E30: guard `continue`s of for loops that are verified in place (not lifted by E14)
+    if item.kind == 'fn' and not any(d[0] == 'lift-loop' for d in ex.directives) and re.search(r'\bcontinue\b', mask(code)):
+        code, nc = rewrite_guard_continues(code)
+        if nc:
+            rec['transformations'].append({'rule': 'E30', 'what': '%d guard `continue` of a for loop rewritten as `if .. {..} else {<rest of the loop body>}`' % nc})
 
     stub_of = getattr(ex, 'stub_of', None)
     rec['stub_of'] = stub_of
